@@ -314,6 +314,33 @@ def run(ctx):
         skip = logic.implies(logic.facts_as_premises(mcfg.facts_at(node.id)), logic.parse(f"{flag4} or {key} not in {cont}"))
         ctx.check(skip, "R15.4", "merge_record_descriptors:first-wins", f"a later descriptor overwrites the type of `{key}` even without replace (facts: {sorted(facts)})", s0,
                   f"store guarded by not(not replace and {key} in {cont})", key="R15.4:merge_record_descriptors:overwrites")
+    # every descriptor of the argument takes part, repeats included (with replace a repeated descriptor re-asserts its types): no skip of a
+    # whole descriptor that depends on what the loop has seen before
+    dparam = func_params(mr)[0]
+    for lp in [n for n in walk_no_nested(mr) if isinstance(n, ast.For) and norm(n.iter) == dparam]:
+        carried = set()
+        for n in ast.walk(lp):
+            if isinstance(n, ast.Call) and isinstance(n.func, ast.Attribute) and isinstance(n.func.value, ast.Name) and n.func.attr in ("add", "append", "update", "extend", "setdefault", "insert"):
+                carried.add(n.func.value.id)
+            if isinstance(n, (ast.Assign, ast.AugAssign)):
+                for t in (n.targets if isinstance(n, ast.Assign) else [n.target]):
+                    root = t
+                    while isinstance(root, (ast.Subscript, ast.Attribute)):
+                        root = root.value
+                    if isinstance(root, ast.Name):
+                        carried.add(root.id)
+        for jump in [n for n in ast.walk(lp) if isinstance(n, (ast.Continue, ast.Break))]:
+            own = getattr(jump, "_parent", None)
+            while own is not None and not isinstance(own, (ast.For, ast.While)):
+                own = getattr(own, "_parent", None)
+            if own is not lp:
+                continue
+            conds = enclosing_conditions(jump, lp)
+            names = {x.id for t, _ in conds for x in ast.walk(ast.parse(t, mode="eval")) if isinstance(x, ast.Name)}
+            dep = sorted(names & carried)
+            ctx.check(not dep, "R15.4", f"merge_record_descriptors:skips-descriptor@{conds[0][0][:40] if conds else ''}", f"a whole descriptor is skipped depending on {dep}, which the loop itself "
+                      "fills: a descriptor that appears again later in the argument no longer re-asserts its field types under replace=True (the value still comes from the last record)", jump,
+                      "every descriptor is merged", key="R15.4:merge_record_descriptors:state-dependent-skip")
     rv = [r for r in walk_no_nested(mr) if isinstance(r, ast.Return)]
     fmap = norm(stores[0].value) if stores else "field_map"
     mal = single_assign_aliases(mr)
